@@ -217,7 +217,24 @@ def R11():
     ], name='R11')
 
 
-PANEL = {'R9': R9, 'R1': R1, 'R2': R2, 'R3': R3, 'R4': R4, 'R5': R5, 'R6': R6, 'R7': R7, 'R8': R8, 'R11': R11}
+def R12():
+    """non-coding, +, three exons; exon 2 is a 32-nt circle candidate whose ORF (ATG at circle index 8) runs round the
+    circle (32 is not a multiple of 3) and, on its later passes, re-reads the positions just 5' of its own start codon."""
+    ex1 = 'GGCACCGCTAAAGCTTGTCGTGATTAAGGCTTAGCCGATCGT'
+    ex2 = 'CTGGTTAAATGACTGCTAGAGAGTCAGGTGAA'
+    ex3 = 'GGCTTAGCCAAACGTGCTGCTGAAGCTTAAGG'
+    tx = ex1 + ex2 + ex3
+    dna, ex = _gene_plus(len(PAD), tx, (len(ex1), len(ex1) + len(ex2)), (I1, I2))
+    genome = PAD + dna + PAD
+    o2 = len(genome)
+    genome += CODING_MINI
+    return refgen.Ref(genome, [
+        dict(gene_id='ENSG12', strand=1, biotype='lncRNA', transcripts=[dict(tx_id='ENST12C', exons=ex, cds=None)]),
+        dict(gene_id='ENSG09', strand=1, transcripts=[dict(tx_id='ENST09', exons=[(o2, o2 + 60)], cds=(o2 + 3, o2 + 54))]),
+    ], name='R12')
+
+
+PANEL = {'R12': R12, 'R9': R9, 'R1': R1, 'R2': R2, 'R3': R3, 'R4': R4, 'R5': R5, 'R6': R6, 'R7': R7, 'R8': R8, 'R11': R11}
 _cache = {}
 
 
